@@ -46,12 +46,40 @@ def decode(block, sw, ch):
     return "blk", ids
 
 
+class ChunkedRaw(io.RawIOBase):
+    """A raw stream that behaves like a pipe fed by a bursty writer: each raw read returns at most the next burst
+    (never more than asked), b"" only at the end.  Deterministic; no threads."""
+
+    def __init__(self, data, bursts):
+        self.data, self.pos = data, 0
+        self.bursts = list(bursts) or [len(data) or 1]
+        self.k = 0
+
+    def readable(self):
+        return True
+
+    def readinto(self, b):
+        if self.pos >= len(self.data):
+            return 0
+        n = min(len(b), self.bursts[self.k % len(self.bursts)], len(self.data) - self.pos)
+        self.k += 1
+        b[:n] = self.data[self.pos:self.pos + n]
+        self.pos += n
+        return n
+
+
 class FakeStdin:
-    def __init__(self, data):
-        self.buffer = io.BytesIO(data)
+    """sys.stdin stand-in.  bursts=None: an in-memory buffer (like a redirected regular file); otherwise a buffered reader
+    over a pipe-like raw stream delivering the given burst sizes (like `producer | auditok -`)."""
+
+    def __init__(self, data, bursts=None):
+        if bursts is None:
+            self.buffer = io.BytesIO(data)
+        else:
+            self.buffer = io.BufferedReader(ChunkedRaw(data, bursts), buffer_size=max(16, min(4096, (len(data) // 3) or 16)))
 
 
-KINDS = ["bytes", "source", "raw", "raw_lazy", "wav", "wav_lazy", "stdin"]
+KINDS = ["bytes", "source", "raw", "raw_lazy", "wav", "wav_lazy", "stdin", "stdin_pipe"]
 
 
 def make_input(kind, data, sr, sw, ch, tmpdir, tag="a"):
@@ -82,9 +110,11 @@ def make_input(kind, data, sr, sw, ch, tmpdir, tag="a"):
         if kind == "wav_lazy":
             kw["large_file"] = True
         return path, kw, lambda: None
-    if kind == "stdin":
+    if kind in ("stdin", "stdin_pipe"):
         old = sys.stdin
-        sys.stdin = FakeStdin(data)
+        bps = sw * ch
+        # bursts that are not multiples of a sample / a block: 1 sample + 1 byte, 3 bytes, 2 samples, ...
+        sys.stdin = FakeStdin(data, None if kind == "stdin" else [bps + 1, 3, 2 * bps, 1, 5 * bps + 2])
 
         def restore():
             sys.stdin = old
